@@ -10,6 +10,7 @@ Inductive exn :=
 | SMILESParserError                      (* internal, converted by encoder *)
 | ValueError | KeyError | IndexError | TypeError | AssertionError | AttributeError
 | ZeroDivisionError | RecursionError
+| StopIteration                          (* next() on an exhausted generator (matching_utils) *)
 | OutOfFuel.                             (* model artefact; excluded by theorems *)
 
 Inductive res (A : Type) := Ok (a : A) | Err (e : exn).
@@ -26,6 +27,7 @@ Definition exn_eqb (a b : exn) : bool :=
   | KeyError, KeyError | IndexError, IndexError | TypeError, TypeError
   | AssertionError, AssertionError | AttributeError, AttributeError
   | ZeroDivisionError, ZeroDivisionError | RecursionError, RecursionError
+  | StopIteration, StopIteration
   | OutOfFuel, OutOfFuel => true
   | _, _ => false
   end.
